@@ -1239,3 +1239,230 @@ def field_stores(body, field):
             if s["k"] == "assign" and s["p"][1] and s["p"][1][-1] == "." + field:
                 out.append((bi, s))
     return out
+
+
+# ---------------------------------------------------------------------------------------------------------------
+# symbolic expression reconstruction (single-definition locals) and decision atoms
+
+def expr_tree(program, body, op, depth=8, expand_params=2, _seen=None):
+    """Reconstructs the expression an operand evaluates to as a nested tuple:
+       ('k', value|text) | ('param', name, proj) | ('call', key, [args]) | ('bin', op, a, b) | ('un', op, a)
+       | ('proj', inner, proj) | ('agg', name, [ops]) | ('phi',) | ('?',)
+    Locals with exactly one definition are inlined; transparent calls (deref/into/clone/...) are skipped;
+    a parameter is replaced by the caller's argument expression when the function has exactly one call
+    site in the workspace (up to `expand_params` levels)."""
+    flow = program.flow(body)
+    if op[0] == "k":
+        c = op[1]
+        return ("k", c.get("val") if c.get("val") is not None else c.get("text"))
+    local, proj = op[1]
+    return _tree_place(program, body, flow, local, list(proj), depth, expand_params)
+
+
+_ALTS = [False]
+
+
+class alternatives:
+    """with alternatives(): expr_tree also expands multi-definition locals and parameters of functions with up
+    to four call sites into ('alt', name, [trees])"""
+
+    def __enter__(self):
+        self.prev = _ALTS[0]
+        _ALTS[0] = True
+
+    def __exit__(self, *a):
+        _ALTS[0] = self.prev
+
+
+def _fields(proj):
+    return "".join(p for p in proj if p.startswith(".") or p.startswith("@"))
+
+
+def _tree_place(program, body, flow, local, proj, depth, expand):
+    if depth <= 0:
+        return ("?",)
+    argc = body.d["argc"]
+    if 1 <= local <= argc and not flow.defs.get(local):
+        name = body.local_name(local) or f"_{local}"
+        if expand > 0 and body.d["kind"] != "Closure":
+            sites = program.callers_of(lambda k, kk=body.key: k == kk)
+            if 1 <= len(sites) <= (4 if _ALTS[0] else 1):
+                alts = []
+                for cb, cbi, ct in sites:
+                    if local - 1 < len(ct["args"]):
+                        alts.append(expr_tree(program, cb, ct["args"][local - 1], depth - 1, expand - 1))
+                if len(alts) == len(sites):
+                    inner = alts[0] if len(alts) == 1 else ("alt", name, alts)
+                    f = _fields(proj)
+                    return ("proj", inner, f) if f else inner
+        return ("param", name, _fields(proj))
+    ds = flow.defs.get(local, [])
+    if len(ds) != 1:
+        nm = body.local_name(local) or f"_{local}"
+        if _ALTS[0] and 2 <= len(ds) <= 4 and depth > 2 and all(not d[2] for d in ds):
+            alts = [_tree_def(program, body, flow, d, [], depth - 2, expand) for d in ds]
+            f = _fields(proj)
+            t = ("alt", nm, alts)
+            return ("proj", t, f) if f else t
+        return ("phi", nm, _fields(proj))
+    return _tree_def(program, body, flow, ds[0], proj, depth, expand)
+
+
+def _tree_def(program, body, flow, d, proj, depth, expand):
+    bi, si, dproj, payload = d
+    f = _fields(proj)
+
+    def wrap(x):
+        if not f:
+            return x
+        if x[0] == "agg":
+            # field of a freshly built aggregate: pick the operand
+            name, ops, fields = x[1], x[2], x[3] if len(x) > 3 else None
+            first = [p for p in proj if p.startswith(".")][:1]
+            if fields and first and first[0][1:] in fields:
+                sub = ops[fields.index(first[0][1:])]
+                rest = f[len(first[0]):] if f.startswith(first[0]) else ""
+                return ("proj", sub, rest) if rest else sub
+        if x[0] == "param":
+            return ("param", x[1], x[2] + f)
+        if x[0] == "proj":
+            return ("proj", x[1], x[2] + f)
+        return ("proj", x, f)
+    if si == "call":
+        t = payload
+        key = callee_key(t["f"]) or declared_key(t["f"]) or "?"
+        if (is_transparent(key) or is_transparent(declared_key(t["f"]))) and t["args"]:
+            return wrap(expr_tree(program, body, t["args"][0], depth - 1, expand))
+        return wrap(("call", key, [expr_tree(program, body, a, depth - 1, expand) for a in t["args"]]))
+    rv = payload
+    k = rv["k"]
+    if k in ("use", "cast"):
+        return wrap(expr_tree(program, body, rv["a"], depth - 1, expand))
+    if k in ("ref", "rawptr"):
+        return wrap(_tree_place(program, body, flow, rv["p"][0], list(rv["p"][1]), depth - 1, expand))
+    if k == "discr":
+        return ("un", "discr", _tree_place(program, body, flow, rv["p"][0], list(rv["p"][1]), depth - 1, expand))
+    if k == "bin":
+        return wrap(("bin", rv["op"], expr_tree(program, body, rv["a"], depth - 1, expand), expr_tree(program, body, rv["b"], depth - 1, expand)))
+    if k == "un":
+        return wrap(("un", rv["op"], expr_tree(program, body, rv["a"], depth - 1, expand)))
+    if k == "agg":
+        name = rv.get("adt") or rv.get("closure") or rv["ak"]
+        return wrap(("agg", (norm_path(name) + "::" + str(rv.get("variant"))) if rv["ak"] == "adt" else name, [expr_tree(program, body, o, depth - 1, expand) for o in rv["ops"]], rv.get("fields")))
+    return ("?",)
+
+
+def simplify(t):
+    """Sub(Add(a, b), a) -> b ; Add(Sub(a, b), b) -> a ; tuple field `.0` of checked ops."""
+    if not isinstance(t, tuple):
+        return t
+    if t[0] == "bin":
+        a, b = simplify(t[2]), simplify(t[3])
+        op = t[1].replace("WithOverflow", "").replace("Unchecked", "")
+        if op == "Sub" and a[0] == "bin" and a[1] in ("Add",):
+            if render(a[2]) == render(b):
+                return a[3]
+            if render(a[3]) == render(b):
+                return a[2]
+        return ("bin", op, a, b)
+    if t[0] == "proj":
+        inner = simplify(t[1])
+        if inner[0] == "bin" and t[2] == ".0":
+            return inner
+        if inner[0] == "param":
+            return ("param", inner[1], inner[2] + t[2])
+        return ("proj", inner, t[2])
+    if t[0] == "call":
+        return ("call", t[1], [simplify(x) for x in t[2]])
+    if t[0] == "un":
+        return ("un", t[1], simplify(t[2]))
+    if t[0] == "agg":
+        return ("agg", t[1], [simplify(x) for x in t[2]], t[3] if len(t) > 3 else None)
+    if t[0] == "alt":
+        return ("alt", t[1], [simplify(x) for x in t[2]])
+    return t
+
+
+def render(t):
+    k = t[0]
+    if k == "k":
+        return str(t[1])
+    if k == "param":
+        return t[1] + t[2]
+    if k == "call":
+        return stable(t[1]).split("::")[-1] + "(" + ", ".join(render(x) for x in t[2]) + ")"
+    if k == "bin":
+        return f"{t[1]}({render(t[2])}, {render(t[3])})"
+    if k == "un":
+        return f"{t[1]}({render(t[2])})"
+    if k == "proj":
+        return render(t[1]) + t[2]
+    if k == "agg":
+        return str(t[1]).split("::")[-1] + "{" + ", ".join(render(x) for x in t[2]) + "}"
+    if k == "phi":
+        return f"phi:{t[1]}{t[2]}"
+    if k == "alt":
+        return "{" + " | ".join(render(x) for x in t[2]) + "}"
+    return "?"
+
+
+def tree_leaves(t, out=None):
+    """[('call', key) | ('param', name+proj) | ('k', v) | ('phi', ..)] leaves and call nodes of the tree"""
+    out = [] if out is None else out
+    k = t[0]
+    if k == "call":
+        out.append(("call", t[1]))
+        for x in t[2]:
+            tree_leaves(x, out)
+    elif k == "bin":
+        tree_leaves(t[2], out); tree_leaves(t[3], out)
+    elif k == "un":
+        tree_leaves(t[2], out)
+    elif k == "proj":
+        if t[1][0] in ("call",):
+            out.append(("field", t[2]))
+        tree_leaves(t[1], out)
+    elif k == "agg":
+        for x in t[2]:
+            tree_leaves(x, out)
+    elif k == "param":
+        out.append(("param", t[1] + t[2]))
+    elif k == "k":
+        out.append(("k", t[1]))
+    elif k == "alt":
+        for x in t[2]:
+            tree_leaves(x, out)
+    else:
+        out.append((k,) + tuple(t[1:]))
+    return out
+
+
+def deciders(cfg, a_blocks, b_blocks):
+    """Switch blocks at which the choice between reaching A and reaching B is made: blocks from which both are
+    reachable and whose successors (ignoring those reaching neither) differ in which of A/B they can reach.
+    -> [(switch_bb, {label: (reachesA, reachesB)})]"""
+    a_blocks, b_blocks = set(a_blocks), set(b_blocks)
+    memo = {}
+
+    def can(b):
+        if b not in memo:
+            r = cfg.reachable_from(b)
+            memo[b] = (bool(r & a_blocks), bool(r & b_blocks))
+        return memo[b]
+    out = []
+    for sb in sorted(cfg.reach):
+        if cfg.body.blocks[sb]["t"]["k"] != "switch":
+            continue
+        if sb in a_blocks or sb in b_blocks:
+            pass
+        ca = can(sb)
+        if not (ca[0] and ca[1]):
+            continue
+        labs = {}
+        for lab, tgt in cfg.succ[sb]:
+            c = can(tgt)
+            if c[0] or c[1]:
+                labs[lab] = c
+        if len(set(labs.values())) > 1:
+            out.append((sb, labs))
+    return out
